@@ -2037,9 +2037,9 @@ class IMAPClientCommand:
         # We must match the case insensitive string 'mailbox' first because
         # our other mailbox names are case sensitive.
         #
-        mbox_name = self._p_simple_string("inbox", silent=True)
-        if mbox_name is None:
-            mbox_name = self._p_astring()
+        mbox_name = self._p_astring()
+        if mbox_name.lower() == "inbox":
+            mbox_name = "inbox"
         if mbox_name != "":
             return os.path.normpath(mbox_name)
         else:
